@@ -11,6 +11,7 @@ From Coq Require Import List Arith NArith Bool Permutation Lia.
 Require Import Base Tables_rules.
 Require Import LintGroupCfg LintGroupCfgProofs LintGroupCfgJson C11History.
 Require Import C11Curated C11CuratedProofs C11Cache C11CacheProofs.
+Require Import C11JsonValue Tables_c11routes C11JsonValueProofs.
 Import ListNotations.
 
 (* ---- the dispatch ---- *)
@@ -658,4 +659,137 @@ Proof.
     destruct Hch as [<-|[<-|[]]]; cbn in Hst; injection Hst as <-; cbn in Hl; repeat (destruct Hl as [<-|Hl]; [cbn; lia|]); destruct Hl.
   - vm_compute. reflexivity.
   - vm_compute. reflexivity.
+Qed.
+
+(* ================================================================================================ *)
+(* phase 4: the OTHER serialisation routes — harper-ls Config::from_lsp_config (serde_json::Value)   *)
+(* and the two harper-wasm setters (Model/C11JsonValue.v, Tables_c11routes.v)                        *)
+(* ================================================================================================ *)
+(* `nf` is serde_json's f64 range check on a grammatical number literal (third-party floating point): a
+   parameter WITHOUT hypothesis — everything below holds for every instance. *)
+
+(* whatever serde_json::from_str::<LintGroupConfig> accepts, from_str::<Value> followed by from_value (the route
+   of Config::from_lsp_config) accepts too, and yields the SAME configuration; hence the two routes never
+   disagree on a text both accept *)
+Theorem C11_value_route_of_typed : forall (nf : list N -> bool) (s : list N) (c : config),
+  parse_cfg s = Some c ->
+  value_text_route nf s = Some c /\ (forall c2, value_text_route nf s = Some c2 -> c = c2).
+Proof. exact (fun nf s c H => conj (value_route_of_typed nf s c H) (fun c2 => routes_agree nf s c c2 H)). Qed.
+Check C11_value_route_of_typed : forall (nf : list N -> bool) (s : list N) (c : config),
+  parse_cfg s = Some c ->
+  value_text_route nf s = Some c /\ (forall c2, value_text_route nf s = Some c2 -> c = c2).
+Print Assumptions C11_value_route_of_typed.
+
+(* the converse fails: {"b":-0,"b":true} is refused by the typed parser and accepted by the Value route
+   (serde_json::Map::insert drops the earlier duplicate before its type is looked at) *)
+Theorem C11_value_route_converse_refuted :
+  parse_cfg lenient_text = None /\
+  value_text_route (fun _ => true) lenient_text = Some [([98%N], Some true)].
+Proof. exact value_route_more_lenient. Qed.
+Check C11_value_route_converse_refuted :
+  parse_cfg lenient_text = None /\
+  value_text_route (fun _ => true) lenient_text = Some [([98%N], Some true)].
+Print Assumptions C11_value_route_converse_refuted.
+
+(* a configuration survives the print / Value-route round trip unchanged (ALL keys), as a text and as a Value *)
+Theorem C11_value_route_roundtrip : forall (nf : list N -> bool) (c : config), wf c ->
+  value_text_route nf (print_cfg c) = Some c /\ from_value (cfg_value c) = Some c.
+Proof. exact (fun nf c Hw => conj (value_route_roundtrip nf c Hw) (from_value_cfg_value c Hw)). Qed.
+Check C11_value_route_roundtrip : forall (nf : list N -> bool) (c : config), wf c ->
+  value_text_route nf (print_cfg c) = Some c /\ from_value (cfg_value c) = Some c.
+Print Assumptions C11_value_route_roundtrip.
+
+(* serde_json::from_value::<LintGroupConfig>, exactly: a Value is accepted iff it is an object ALL of whose values
+   are null / true / false (any keys — unknown rule names are kept, never dropped); the result is the object itself
+   (null -> unset); a number, string, array or object as a value, or a non-object, is REJECTED, never ignored *)
+Theorem C11_from_value_exact :
+  (forall v : jvalue, from_value v =
+     match v with
+     | JObj m => if forallb (fun e => is_leaf (snd e)) m then Some (extend [] (unlift m)) else None
+     | _ => None
+     end) /\
+  (forall (m : list (key * jvalue)) (c : config), wf m -> from_value (JObj m) = Some c ->
+     c = unlift m /\ forall k, get k c = match get k m with Some v => Some (opt_of_value v) | None => None end) /\
+  (forall (m : list (key * jvalue)) e, In e m -> is_leaf (snd e) = false -> from_value (JObj m) = None).
+Proof. exact (conj from_value_exact (conj from_value_sorted from_value_rejects)). Qed.
+Check C11_from_value_exact :
+  (forall v : jvalue, from_value v =
+     match v with
+     | JObj m => if forallb (fun e => is_leaf (snd e)) m then Some (extend [] (unlift m)) else None
+     | _ => None
+     end) /\
+  (forall (m : list (key * jvalue)) (c : config), wf m -> from_value (JObj m) = Some c ->
+     c = unlift m /\ forall k, get k c = match get k m with Some v => Some (opt_of_value v) | None => None end) /\
+  (forall (m : list (key * jvalue)) e, In e m -> is_leaf (snd e) = false -> from_value (JObj m) = None).
+Print Assumptions C11_from_value_exact.
+
+(* Config::from_lsp_config over the key list GENERATED from config.rs: {"harper-ls":{"linters": Value of c}} configures
+   exactly c; a member of the "harper-ls" object whose key from_lsp_config does not read changes nothing; a value in
+   "linters" that is neither a boolean nor null makes from_lsp_config fail (harper-ls then keeps its previous Config) *)
+Theorem C11_lsp_settings :
+  (forall c : config, wf c -> lsp_lint_config lsp_other_keys (settings_of [(k_linters, cfg_value c)]) = LCfg c) /\
+  (forall (h : list (key * jvalue)) k v, ~ In k lsp_config_keys ->
+     lsp_lint_config lsp_other_keys (settings_of (insert k v h)) = lsp_lint_config lsp_other_keys (settings_of h)) /\
+  (forall (m : list (key * jvalue)) e, In e m -> is_leaf (snd e) = false ->
+     lsp_lint_config lsp_other_keys (settings_of [(k_linters, JObj m)]) = LBail).
+Proof. exact (conj lsp_linters_value (conj lsp_unknown_key_ignored lsp_rejects_non_boolean)). Qed.
+Check C11_lsp_settings :
+  (forall c : config, wf c -> lsp_lint_config lsp_other_keys (settings_of [(k_linters, cfg_value c)]) = LCfg c) /\
+  (forall (h : list (key * jvalue)) k v, ~ In k lsp_config_keys ->
+     lsp_lint_config lsp_other_keys (settings_of (insert k v h)) = lsp_lint_config lsp_other_keys (settings_of h)) /\
+  (forall (m : list (key * jvalue)) e, In e m -> is_leaf (snd e) = false ->
+     lsp_lint_config lsp_other_keys (settings_of [(k_linters, JObj m)]) = LBail).
+Print Assumptions C11_lsp_settings.
+
+(* harper-wasm: the bodies of set_lint_config_from_json AND set_lint_config_from_object, statement by statement as
+   generated from lib.rs, both compute wasm_set_config (clear, then merge_from) — the function C11_wasm_history is about.
+   set_lint_config_from_object cannot be executed natively (serde_wasm_bindgen); this obligation fails to compile when
+   either body changes (e.g. the clear() is dropped again) *)
+Theorem C11_wasm_routes_are_set : forall stored parsed : config,
+  run_wbody wasm_set_from_json_body stored None parsed = Some (wasm_set_config stored parsed) /\
+  run_wbody wasm_set_from_object_body stored None parsed = Some (wasm_set_config stored parsed) /\
+  wbody_parser wasm_set_from_json_body = Some WFromJsonStr /\
+  wbody_parser wasm_set_from_object_body = Some WFromJsObject.
+Proof. exact wasm_routes_are_set. Qed.
+Check C11_wasm_routes_are_set : forall stored parsed : config,
+  run_wbody wasm_set_from_json_body stored None parsed = Some (wasm_set_config stored parsed) /\
+  run_wbody wasm_set_from_object_body stored None parsed = Some (wasm_set_config stored parsed) /\
+  wbody_parser wasm_set_from_json_body = Some WFromJsonStr /\
+  wbody_parser wasm_set_from_object_body = Some WFromJsObject.
+Print Assumptions C11_wasm_routes_are_set.
+
+(* non-vacuity: a text with whitespace, \u escapes in both hex cases and a duplicate key is accepted by the typed
+   parser (the hypothesis of C11_value_route_of_typed) and by the Value route; complete settings texts through
+   from_str::<Value> + from_lsp_config: unknown member with numbers / nesting ignored, duplicate rule key (later wins),
+   another known key (outside the model), a number as a rule value (bail), no "linters" (default), a trailing comma *)
+Definition ex_typed_text : list N := (*  { "aé" : true ,\n"b":null, "aé":false }  *)
+  [32; 123; 32; 34; 97; 92; 117; 48; 48; 101; 57; 34; 32; 58; 32; 116; 114; 117; 101; 32; 44; 10; 34; 98; 34; 58; 110; 117; 108; 108; 44; 32; 34; 97; 92; 117; 48; 48; 69; 57; 34; 58; 102; 97; 108; 115; 101; 32; 125; 32]%N.
+Definition ex_settings_ok : list N := (* {"harper-ls":{"foo":[1,{"a":-2.5e3}],"linters":{"SpellCheck":false, "xA":null,"SpellCheck":true}}} *)
+  [123; 34; 104; 97; 114; 112; 101; 114; 45; 108; 115; 34; 58; 123; 34; 102; 111; 111; 34; 58; 91; 49; 44; 123; 34; 97; 34; 58; 45; 50; 46; 53; 101; 51; 125; 93; 44; 34; 108; 105; 110; 116; 101; 114; 115; 34; 58; 123; 34; 83; 112; 101; 108; 108; 67; 104; 101; 99; 107; 34; 58; 102; 97; 108; 115; 101; 44; 32; 34; 120; 92; 117; 48; 48; 52; 49; 34; 58; 110; 117; 108; 108; 44; 34; 83; 112; 101; 108; 108; 67; 104; 101; 99; 107; 34; 58; 116; 114; 117; 101; 125; 125; 125]%N.
+Definition ex_settings_other : list N := (* {"harper-ls":{"dialect":"British","linters":{}}} *)
+  [123; 34; 104; 97; 114; 112; 101; 114; 45; 108; 115; 34; 58; 123; 34; 100; 105; 97; 108; 101; 99; 116; 34; 58; 34; 66; 114; 105; 116; 105; 115; 104; 34; 44; 34; 108; 105; 110; 116; 101; 114; 115; 34; 58; 123; 125; 125; 125]%N.
+Definition ex_settings_num : list N := (* {"harper-ls":{"linters":{"SpellCheck":1}}} *)
+  [123; 34; 104; 97; 114; 112; 101; 114; 45; 108; 115; 34; 58; 123; 34; 108; 105; 110; 116; 101; 114; 115; 34; 58; 123; 34; 83; 112; 101; 108; 108; 67; 104; 101; 99; 107; 34; 58; 49; 125; 125; 125]%N.
+Definition ex_settings_none : list N := (*  {"harper-ls":{"Linters":{"a":true}},"x":null}  *)
+  [32; 123; 34; 104; 97; 114; 112; 101; 114; 45; 108; 115; 34; 58; 123; 34; 76; 105; 110; 116; 101; 114; 115; 34; 58; 123; 34; 97; 34; 58; 116; 114; 117; 101; 125; 125; 44; 34; 120; 34; 58; 110; 117; 108; 108; 125; 32]%N.
+Definition ex_settings_bad : list N := (* {"harper-ls":{"linters":{"a":true,}}} *)
+  [123; 34; 104; 97; 114; 112; 101; 114; 45; 108; 115; 34; 58; 123; 34; 108; 105; 110; 116; 101; 114; 115; 34; 58; 123; 34; 97; 34; 58; 116; 114; 117; 101; 44; 125; 125; 125]%N.
+Definition ex_k_spell : key := [83; 112; 101; 108; 108; 67; 104; 101; 99; 107]%N.
+Example C11_value_route_nonvacuous :
+  parse_cfg ex_typed_text = Some [([97; 195; 169]%N, Some false); ([98]%N, None)] /\
+  value_text_route (fun _ => true) ex_typed_text = Some [([97; 195; 169]%N, Some false); ([98]%N, None)] /\
+  lsp_text_route (fun _ => true) lsp_other_keys ex_settings_ok = Some (LCfg [(ex_k_spell, Some true); ([120; 65]%N, None)]) /\
+  lsp_text_route (fun _ => true) lsp_other_keys ex_settings_other = Some LOther /\
+  lsp_text_route (fun _ => true) lsp_other_keys ex_settings_num = Some LBail /\
+  lsp_text_route (fun _ => true) lsp_other_keys ex_settings_none = Some (LCfg []) /\
+  lsp_text_route (fun _ => true) lsp_other_keys ex_settings_bad = None /\
+  ~ In [102; 111; 111]%N lsp_config_keys /\
+  from_value (JObj [([97]%N, JBool true); ([98]%N, JNum)]) = None /\
+  from_value (JArr []) = None /\
+  run_wbody [WParse WFromJsObject; WMerge; WOk] [(ex_k_spell, Some false)] None [(ex_k_spell, None)]
+    <> Some (wasm_set_config [(ex_k_spell, Some false)] [(ex_k_spell, None)]).
+Proof.
+  repeat split; try (vm_compute; reflexivity).
+  - vm_compute. intuition discriminate.
+  - vm_compute. discriminate.
 Qed.
